@@ -50,10 +50,17 @@ Section Inst.
     && match array_led K with LIndex => true | _ => false end
     && match led_of_key E (key_dot K) with LDotIdx => true | _ => false end.
 
+  (* tokens that start a statement do not bind to the left: literals, calls, plain symbols,
+     semicolons and the prefix operator `not` have left binding power <= 0 *)
+  Definition chk_stop : bool :=
+    (lbp_int K <=? 0) && (lbp_float K <=? 0) && (lbp_bool K <=? 0) && (lbp_str K <=? 0)
+    && (lbp_pair K <=? 0) && (lbp_hash K <=? 0) && (lbp_semicolon K <=? 0) && (lbp_sym_default K <=? 0)
+    && forallb (fun t => match lbp_of E K t with Some l => l <=? 0 | None => false end) prefix_toks.
+
   Definition table_ok : bool :=
     forallb chk_binop binop_toks && forallb chk_prefix prefix_toks
     && forallb (fun a => forallb (chk_order a) binop_toks) binop_toks
-    && chk_names && chk_struct.
+    && chk_names && chk_struct && chk_stop.
 
   Hypothesis OK : table_ok = true.
 
@@ -63,12 +70,16 @@ Section Inst.
     chk_names = true /\ chk_struct = true.
   Proof.
     pose proof OK as H. unfold table_ok in H.
+    apply andb_prop in H. destruct H as (H & _).
     apply andb_prop in H. destruct H as (H & H5).
     apply andb_prop in H. destruct H as (H & H4).
     apply andb_prop in H. destruct H as (H & H3).
     apply andb_prop in H. destruct H as (H1 & H2).
     repeat split; assumption.
   Qed.
+
+  Lemma ok_stop : chk_stop = true.
+  Proof. pose proof OK as H. unfold table_ok in H. apply andb_prop in H. tauto. Qed.
 
   Lemma level_of_in : forall n ls i x, Doc.level_of n ls i = Some x -> In n (concat (map fst ls)).
   Proof.
@@ -236,8 +247,65 @@ Section Inst.
     apply take_expr_spec in H. destruct H as (H1 & H2 & _).
     apply (expr_prefix_correct tok (lbp_of E K) (nud_of E) (led_of E K) is_else (fun _ => false) eof
               Doc.is_operand Doc.is_prefix Doc.is_binop Doc.is_postfix Doc.prec Doc.rassoc L_of R_of maxl maxr
-              I_operand I_prefix I_binop I_postfix I_order I_uniform I_max I_binop_pos a tail H1 H2).
+              I_operand I_prefix I_binop I_postfix I_order I_uniform I_max I_binop_pos a tail _ H1 H2); [|apply le_n].
     destruct tail as [|t tl]; [exact I|]. destruct H0 as (l & Hl & Hle).
     exists l. split; [exact Hl|]. destruct I_max. split; lia.
+  Qed.
+
+  Lemma I_start : forall t,
+    Doc.is_semi t || Doc.is_operand t || Doc.is_prefix t = true -> Doc.is_postfix t = false ->
+    exists l, lbp_of E K t = Some l /\ l <= 0.
+  Proof.
+    pose proof ok_stop as Hs. unfold chk_stop in Hs.
+    apply andb_prop in Hs; destruct Hs as (Hs & S9).
+    apply andb_prop in Hs; destruct Hs as (Hs & S8).
+    apply andb_prop in Hs; destruct Hs as (Hs & S7).
+    apply andb_prop in Hs; destruct Hs as (Hs & S6).
+    apply andb_prop in Hs; destruct Hs as (Hs & S5).
+    apply andb_prop in Hs; destruct Hs as (Hs & S4).
+    apply andb_prop in Hs; destruct Hs as (Hs & S3).
+    apply andb_prop in Hs; destruct Hs as (S1 & S2).
+    apply Z.leb_le in S1, S2, S3, S4, S5, S6, S7, S8.
+    intros t H Hp; destruct t as [n c|n|i|i|i|i|i|i|i| | |i|i]; try destruct c;
+      cbv beta iota delta [Doc.is_semi Doc.is_operand Doc.is_prefix Doc.is_postfix orb] in H, Hp;
+      try discriminate; cbn [lbp_of]; eauto.
+    - (* plain symbol: operand or `not` *)
+      destruct (existsb (String.eqb n) Doc.prefix_names) eqn:Ep.
+      + assert (Hin : In (TSym n false) prefix_toks).
+        { apply existsb_exists in Ep. destruct Ep as (m & Hm & He). apply String.eqb_eq in He. subst.
+          now apply (in_map (fun m => TSym m false)). }
+        rewrite forallb_forall in S9. specialize (S9 _ Hin). cbn [lbp_of] in S9.
+        destruct (if in_names n (lbp_zero_syms K) then Some (lbp_zero_val K)
+                  else match lookup E n with Some e => Some (found_bp K e) | None => Some (lbp_sym_default K) end) as [l|];
+          [|discriminate]. exists l. split; auto. now apply Z.leb_le.
+      + destruct (negb (Doc.is_reserved n)) eqn:En; [|discriminate]. apply negb_true_iff in En.
+        rewrite (unreserved_zero _ En), (unreserved_lookup _ En). eauto.
+    - (* dot symbol: an operand dot symbol is also a postfix *)
+      destruct (negb (Doc.is_reserved n)); discriminate.
+  Qed.
+
+  Lemma I_semi : forall t, Doc.is_semi t = true -> Doc.is_operand t = false /\ Doc.is_prefix t = false.
+  Proof. intros t H; destruct t; try discriminate. split; reflexivity. Qed.
+
+  Lemma I_label : forall ts, is_label_for ts = true ->
+    take_unit tok Doc.is_operand Doc.is_prefix Doc.is_postfix ts = None.
+  Proof.
+    intros ts H. destruct ts as [|t r]; [discriminate|].
+    destruct t as [n c|n|i|i|i|i|i|i|i| | |i|i]; try discriminate.
+    destruct c; [|discriminate]. reflexivity.
+  Qed.
+
+  (* statements in order, whole blocks: every block the documented grammar recognises
+     (statements separated by semicolons or merely juxtaposed, stray semicolons allowed,
+     a statement may start with `not`) is expanded by the model of InfixExpandArray to exactly
+     the specification's statement list *)
+  Theorem instance_block : forall ts xs,
+    Doc.block ts = Some xs -> m_parse_block E K (fun _ => false) ts = ROk xs.
+  Proof.
+    intros ts xs H. unfold m_parse_block, parse_block. unfold Doc.block, spec_block in H.
+    apply (block_is_the_oracle tok (lbp_of E K) (nud_of E) (led_of E K) is_else (fun _ => false) _
+              Doc.is_operand Doc.is_prefix Doc.is_binop Doc.is_postfix Doc.prec Doc.rassoc L_of R_of maxl maxr
+              I_operand I_prefix I_binop I_postfix I_order I_uniform I_max I_binop_pos
+              is_semi is_label_for I_start I_semi I_label _ ts xs H). lia.
   Qed.
 End Inst.
